@@ -74,6 +74,11 @@ pub fn looks_like_cell(s: &str) -> bool {
 }
 
 pub fn render_sheet(name: &str) -> String {
+    // a leading '~' marks a name that the producer wrote without quotes although Excel itself
+    // would quote it (a sheet called Q1 or FY21: other writers emit Q1!B2)
+    if let Some(raw) = name.strip_prefix('~') {
+        return format!("{raw}!");
+    }
     if sheet_needs_quotes(name) {
         format!("'{}'!", name.replace('\'', "''"))
     } else {
